@@ -173,7 +173,7 @@ OPEN_DOT_ND = 'KF-dot-nd-reverse'
 
 CHEAP_TAIL = ['un', 'bin', 'binc', 'neg', 'get']
 
-SINGLE = ['un', 'special', 'unp', 'bin', 'binc', 'pow', 'neg', 'get', 'T', 'reshape', 'buf', 'set', 'sum', 'prod', 'trace',
+SINGLE = ['un', 'special', 'unp', 'bin', 'binc', 'pow', 'neg', 'get', 'T', 'reshape', 'buf', 'set', 'rmw', 'sum', 'prod', 'trace',
           'dot', 'dotc', 'outer', 'inv', 'solve', 'det', 'logdet', 'qr', 'chol', 'eigh', 'svd', 'lu', 'fft', 'tile', 'diag',
           'symvec']
 
@@ -184,8 +184,8 @@ def pairing_cases(draw, tier, first=None, families=None, max_len=8, min_len=1):
     pr = draw(PG.programs(n_inputs=(1, 2), max_len=max_len, min_len=min_len, families=families, out='any', K=4,
                           allow_set_broadcast=allow_bcast, first=first, allow_ones=False))
     Dmax = 3 if tier == 'quick' else 4
-    D = draw(st.sampled_from([1, 2, 2, 3, 3] + ([4] if Dmax >= 4 else [])))
-    P = draw(st.sampled_from([1, 2, 2, 3]))
+    D = draw(st.sampled_from([3, 2, 3, 2] + ([4, 4] if Dmax >= 4 else []) + [1]))
+    P = draw(st.sampled_from([2, 1, 2, 3]))
     case = dict(pr)
     case['D'], case['P'] = D, P
     dense = gen.nice_floats(-1.0, 1.0)
